@@ -167,12 +167,17 @@ def run(ctx: Ctx, rep: Report) -> None:
             rep.check(ok, "C05-R3", gen.site(), f"{cls.name}: message = SEQUENCE[Integer({want_v}), OctetString(credentials.community), <the PDU>]", fmt(items), key=f"{gen.key}|wrapper-shape")
     for ident in (0, 1):
         cls = mpm_class(ctx, ident)
-        enc_m = own_method(ctx, cls, "encode")
+        enc_m = ctx.inlined(own_method(ctx, cls, "encode"))  # the plumbing may sit in helpers shared by the community MPMs (self._wrap / self._security)
         calls = [n for n in own_nodes(enc_m.node) if isinstance(n, ast.Call) and isinstance(n.func, ast.Attribute) and n.func.attr == "generate_request_message"]
-        ok = len(calls) == 1 and calls[0].args and norm(calls[0].args[0]) == "pdu" and norm(calls[0].args[-1]) == "credentials"
-        rets = [n for n in own_nodes(enc_m.node) if isinstance(n, ast.Return) and n.value is not None]
         defs = ctx.defs(enc_m)
-        okr = len(rets) == 1 and isinstance(rets[0].value, ast.Call) and rets[0].value.args and norm(defs.expand(rets[0].value.args[0])).startswith("bytes(self.security_model.generate_request_message(pdu")
+        pdu_p, cred_p = "pdu", "credentials"
+        ok = len(calls) == 1 and bool(calls[0].args) and norm(defs.expand(calls[0].args[0])) == pdu_p and norm(defs.expand(calls[0].args[-1])) == cred_p and pdu_p in enc_m.params and cred_p in enc_m.params
+        ok = ok and norm(defs.expand(calls[0].func.value)) == "self.security_model"
+        rets = [n for n in own_nodes(enc_m.node) if isinstance(n, ast.Return) and n.value is not None]
+        okr = False
+        if ok and len(rets) == 1 and isinstance(rets[0].value, ast.Call) and rets[0].value.args:
+            emitted = defs.expand(rets[0].value.args[0])
+            okr = isinstance(emitted, ast.Call) and norm(emitted.func) == "bytes" and len(emitted.args) == 1 and norm(emitted.args[0]) == norm(defs.expand(calls[0]))
         rep.check(ok and okr, "C05-R3", enc_m.site(), f"{cls.name}.encode emits the bytes of the security model's message for the caller's PDU and credentials", key=f"{enc_m.key}|encode-flow")
 
     # ------------------------------------------------------------ R4
